@@ -227,7 +227,7 @@ func buildEngine(l *loaded, h harnessRef, base sym.Config) (*sym.Engine, error) 
 	for k, v := range base.Merge {
 		cfg.Merge[k] = v
 	}
-	cfg.Transparent = append([]string{modPath + "/", "errors", "encoding/binary", "encoding/hex", "time", "sort", "math/bits", "bytes", "strings", "strconv", "unicode", "unicode/utf8", "slices", "cmp"}, base.Transparent...)
+	cfg.Transparent = append([]string{modPath + "/", "errors", "encoding/binary", "encoding/hex", "time", "sort", "math/bits", "bytes", "strings", "strconv", "unicode", "unicode/utf8", "slices", "cmp", "encoding/asn1", "container/list"}, base.Transparent...)
 	eng := sym.NewEngine(l.prog, cfg)
 	// initialise only the repository packages the harness's package depends on
 	need := map[string]bool{}
